@@ -10,7 +10,7 @@
    Every theorem has the premise that the run returns Ok; Props/C03.v proves that it does on the whole domain. *)
 From Coq Require Import ZArith Bool List.
 From TV Require Import Model.PlacementBase Gen.PlacementGen Model.Placement
-  Proofs.PlacementTables Proofs.PlacementMatrix Proofs.PlacementProofs.
+  Proofs.PlacementTables Proofs.PlacementMatrix Proofs.PlacementProofs Proofs.PlacementTotal.
 Import ListNotations.
 Open Scope Z_scope.
 
@@ -49,6 +49,23 @@ Theorem C08_auto_no_overlap : forall ec er fl children o, in_domain ec er childr
     ~ overlap p q.
 Proof. exact auto_no_overlap. Qed.
 
+(* with totality (Props/C03.v: C03_placement_total) the premise `= Ok o` is discharged: on the whole domain the run
+   succeeds and all clauses hold of its result *)
+Theorem C08_placement_succeeds_with_all_clauses : forall ec er fl children, in_domain ec er children ->
+  exists o, grid_placement_run ec er fl children = Ok o /\
+    map p_index (o_items o) = map fst (in_flow_children children) /\
+    (forall p, In p (o_items o) ->
+       1 <= p_row_start p /\ p_row_start p < p_row_end p /\ p_row_end p <= tlen (o_rows o) + 1 /\
+       1 <= p_col_start p /\ p_col_start p < p_col_end p /\ p_col_end p <= tlen (o_cols o) + 1) /\
+    (forall p q k c, In p (o_items o) -> In q (o_items o) -> p_index p <> p_index q ->
+       nth_error children (Z.to_nat (p_index p)) = Some (k, c) ->
+       is_definite (c_row c) && is_definite (c_col c) = false -> ~ overlap p q).
+Proof.
+  intros ec er fl children Hdom. destruct (placement_total ec er fl children Hdom) as [o Ho].
+  exists o. split; [exact Ho|]. split; [eapply every_child_placed; eauto|].
+  split; [intros; eapply area_in_range; eauto|intros; eapply auto_no_overlap; eauto].
+Qed.
+
 (* non-vacuity: a 3-column grid, row flow, with a definite item on line -1 / span 2, a hidden child, an item on the
    invalid line 0 and an auto item: the run returns Ok, the premises of all clauses are met *)
 Definition ex_children : list (child_kind * child) :=
@@ -68,3 +85,4 @@ Print Assumptions C08_every_child_placed.
 Print Assumptions C08_area_in_range.
 Print Assumptions C08_explicit_honoured.
 Print Assumptions C08_auto_no_overlap.
+Print Assumptions C08_placement_succeeds_with_all_clauses.
